@@ -93,6 +93,7 @@ func runC17(c *core.Ctx) {
 	// (2) key algebra
 	roots := c16Roots(c)
 	uses := map[string]*shapeUse{}
+	dupSeen := map[string]bool{}
 	nSites := 0
 	for _, r := range roots {
 		sites, err := eng.KeySitesIn(c.P, r, 6)
@@ -103,6 +104,23 @@ func runC17(c *core.Ctx) {
 		for _, s := range sites {
 			nSites++
 			sh := s.Shape.Norm()
+			// a key that encodes the same value twice has lost one of the parameters that
+			// should identify the record (records differing only in it collide)
+			for i := 0; i < len(sh); i++ {
+				for j := i + 1; j < len(sh); j++ {
+					if sh[i].Kind == eng.AFix && sh[j].Kind == eng.AFix && sh[i].Val != nil && sh[j].Val != nil && sameValue(sh[i].Val, sh[j].Val) {
+						if _, isConst := sh[i].Val.(*ssa.Const); isConst {
+							continue
+						}
+						dupKey := ir.FuncName(s.Fn) + "|" + sh.Canon()
+						if !dupSeen[dupKey] {
+							dupSeen[dupKey] = true
+							c.Violate("C17.injective", s.Fn, "key "+sh.Canon()+" encodes each identifying parameter once", c.P.Rel(s.Call.Pos()),
+								sprintf("components %d and %d of the key encode the same value: a parameter that should distinguish records is missing from the key", i, j))
+						}
+					}
+				}
+			}
 			key := sh.Canon()
 			u := uses[key]
 			if u == nil {
